@@ -40,6 +40,11 @@ type C17Plan struct {
 	// PreAccept[n]: on the n-th connection the server sends that many tx notifications, numbered
 	// from the id the client expects, before its accept (they must be ignored and not counted)
 	PreAccept []int `json:"pre_accept,omitempty"`
+	// a slow application: each notification takes HandlerDelayMs to handle, and on reconnect it declares
+	// ready with the id after the last one it has handled (what cmd/client does)
+	HandlerDelayMs int  `json:"handler_delay_ms,omitempty"`
+	ReadyFromSeen  bool `json:"ready_from_seen,omitempty"`
+	BusyCut        bool `json:"busy_cut,omitempty"` // resume mode: drop while the application is still busy
 }
 
 type flagSetter struct {
@@ -174,7 +179,27 @@ func c17Run(plan *C17Plan) (*c16Violation, map[string]bool) {
 				push(kind, id)
 				n++
 			}
-			quiesce()
+			if plan.BusyCut && plan.HandlerDelayMs > 0 && my < len(plan.Cuts) {
+				// drop while the slow application still has notifications queued: wait only until the
+				// client has counted everything that was sent, not until the handlers have seen it
+				deadline := time.Now().Add(5 * time.Second)
+				mu.Lock()
+				t := tcp
+				mu.Unlock()
+				for t != nil && t.c.NextMessageID() != cursor+uint64(n) && time.Now().Before(deadline) {
+					time.Sleep(time.Millisecond)
+				}
+				if t != nil && n > 0 {
+					t.h1.mu.Lock()
+					behind := t.h1.lastSeen+1 < cursor+uint64(n)
+					t.h1.mu.Unlock()
+					if behind {
+						flags.set("busy-reconnect")
+					}
+				}
+			} else {
+				quiesce()
+			}
 			if my < len(plan.Cuts) {
 				_ = sc.c.Close()
 				flags.set("reconnect")
@@ -225,6 +250,8 @@ func c17Run(plan *C17Plan) (*c16Violation, map[string]bool) {
 	defer tc.stop()
 	tc.h1.mu.Lock()
 	tc.h1.readyLag = plan.ReadyLag
+	tc.h1.delay = time.Duration(plan.HandlerDelayMs) * time.Millisecond
+	tc.h1.readyFromSeen = plan.ReadyFromSeen
 	tc.h1.mu.Unlock()
 	mu.Lock()
 	tcp = tc
@@ -368,10 +395,22 @@ func genC17(t *rapid.T) *C17Plan {
 		}
 		p.ReadyLag = lags(len(p.Cuts) + 1)
 		p.PreAccept = pres(len(p.Cuts) + 1)
+		if p.ReadyLag == nil && rapid.IntRange(0, 1).Draw(t, "slowapp") == 0 {
+			p.HandlerDelayMs = rapid.SampledFrom([]int{3, 10, 25, 60}).Draw(t, "hdelay")
+			p.ReadyFromSeen = true
+			p.BusyCut = rapid.IntRange(0, 3).Draw(t, "busycut") != 0
+		}
 		return p
 	}
 	p := &C17Plan{}
-	defer func() { p.ReadyLag = lags(len(p.Segments)); p.PreAccept = pres(len(p.Segments)) }()
+	defer func() {
+		p.ReadyLag = lags(len(p.Segments))
+		p.PreAccept = pres(len(p.Segments))
+		if p.ReadyLag == nil && rapid.IntRange(0, 3).Draw(t, "slowapp") == 0 {
+			p.HandlerDelayMs = rapid.SampledFrom([]int{3, 10, 25}).Draw(t, "hdelay")
+			p.ReadyFromSeen = true
+		}
+	}()
 	for s, ns := 0, rapid.IntRange(1, 3).Draw(t, "nseg"); s < ns; s++ {
 		var sg C17Segment
 		for i, n := 0, rapid.IntRange(0, 9).Draw(t, "nitems"); i < n; i++ {
@@ -387,7 +426,7 @@ func genC17(t *rapid.T) *C17Plan {
 	return p
 }
 
-const c17Rule = "a real RemoteClient.Run (application declares ready on every accept with NextMessageID(), or in a third of the plans with an id up to 3 lower to ask for a repeat; two handlers) against a scripted server (which in a quarter of the plans sends correctly numbered notifications before its accept): hostile mode streams tx/update/headers/in-sync messages whose ids are consecutive, duplicated, skipped or out of order over 1..3 connections that the server drops; resume mode is an honest server that resumes a backlog from each connection's ready value with drops at generated positions; oracle: reference id counter, identical handler sequences, NextMessageID == last delivered + 1, ready value on reconnect, and in resume mode exactly 1..N once; non-trivial = an irregular id or a reconnect; distinct by plan hash"
+const c17Rule = "a real RemoteClient.Run (application declares ready on every accept with NextMessageID(), or in a third of the plans with an id up to 3 lower to ask for a repeat, or - a slow application, 3-25 ms per notification - with the id after the last notification it has handled, and in most of those resume plans the server drops the connection while that application still has notifications queued; two handlers) against a scripted server (which in a quarter of the plans sends correctly numbered notifications before its accept): hostile mode streams tx/update/headers/in-sync messages whose ids are consecutive, duplicated, skipped or out of order over 1..3 connections that the server drops; resume mode is an honest server that resumes a backlog from each connection's ready value with drops at generated positions; oracle: reference id counter, identical handler sequences, NextMessageID == last delivered + 1, ready value on reconnect, and in resume mode exactly 1..N once; non-trivial = an irregular id or a reconnect; distinct by plan hash"
 
 func TestC17Order(t *testing.T) {
 	rep := verifkit.NewReport("C17", "TestC17Order", c17Rule)
